@@ -622,7 +622,7 @@ class SynthDef(metaclass=MetaSynthDef):
         if self._bytes is None:
             stream = io.BytesIO()
             self._write_def_list([self], stream)
-            self._bytes = stream.getbuffer()
+            self._bytes = stream.getvalue()
         return self._bytes
 
     def _write_def_file(self, dir, overwrite=True, md_plugin=None):
